@@ -66,6 +66,11 @@ PLANS["C02"] = {
         "quick": dict(MaxRows=3, MaxCells=2, MaxLate=1, MaxDetached=1, MaxHdr=2, MaxHist=6, ItemMode="plain", ReAdd=True, Variant="repaired"),
         "thorough": dict(MaxRows=4, MaxCells=2, MaxLate=2, MaxDetached=1, MaxHdr=2, MaxHist=8, ItemMode="plain", ReAdd=True, Variant="repaired"),
         "properties": ["RowsAppendOnly"],
+    }, {
+        # two tables: rows joining either, both, or one of them twice, cells added before and after
+        "module": "MCGridShared",
+        "quick": dict(MaxHist=8, MaxRowsS=2, MaxJoin=3),
+        "thorough": dict(MaxHist=9, MaxRowsS=2, MaxJoin=4),
     }],
     "simulate": [{"module": "MCGrid",
                   "quick": dict(MaxRows=40, MaxCells=3, MaxLate=3, MaxDetached=3, MaxHdr=3, ItemMode="plain", ReAdd=True, Variant="repaired", _num=100, _depth=30),
@@ -75,7 +80,7 @@ PLANS["C02"] = {
     "assumptions": [
         "the Go driver's projection of the table through the public API (obs.go: obsGrid) is faithful",
         "header replacement: the column count never shrinks (DESIGN 4.5)",
-        "the same row object is never added to a table twice (not generated)",
+        "positions are demanded of rows that are listed once, in one table (a row has one Location; DESIGN 0.5)",
     ],
 }
 
